@@ -200,6 +200,14 @@ class Doc:
             lvl = int(sym[1])
             self.rubrics.append((f"N{i}", lvl))
             self.lines += ["```{note}", "#" * lvl + f" N{i}", "", "note text", "```", ""]
+        elif kind == "E":  # setext heading ('===' level 1, '---' level 2)
+            lvl = int(sym[1])
+            self.model.heading(lvl, f"T{i}", self.lineno())
+            self.lines += [f"T{i}", "=" * 4 if lvl == 1 else "-" * 4, ""]
+        elif kind == "Z":  # a heading without any text: it still is a heading of its level
+            lvl = int(sym[1])
+            self.model.heading(lvl, "", self.lineno())
+            self.lines += ["#" * lvl, ""]
         elif kind == "O":  # heading directly after an option line (no blank line): it is body, not a comment of the option block
             lvl = int(sym[1])
             self.rubrics.append((f"O{i}", lvl))
@@ -318,7 +326,7 @@ class TitleHeaderSystem(_Base):
         return Obs(digest=(tuple(d.model.sections), tuple(d.model.warn_lines)), nontrivial=len(lv) >= 1, violations=viol[:3])
 
 
-MIXED = ["H1", "H2", "H3", "H4", "H6", "P", "Q1", "Q3", "L1", "L2", "N1", "N3", "O2", "M2", "T2", "S1", "I0", "I1", "I2", "J1", "J2"]
+MIXED = ["H1", "H2", "H3", "H4", "H6", "E1", "E2", "Z2", "P", "Q1", "Q3", "L1", "L2", "N1", "N3", "O2", "M2", "T2", "S1", "I0", "I1", "I2", "J1", "J2"]
 
 
 class MixedSystem(_Base):
